@@ -201,6 +201,11 @@ int run_case(Reader& r, bool& nontrivial, std::string& desc) {
         } else if (k < 91 && !released.empty()) {                      // ---- release of an address that is not outstanding
             char* p = released[r.below((uint32_t)released.size())];
             if (model.find(p) != model.end()) { what = "stale-free(skipped: address reused)"; }
+            else if (r.below(3) == 0) {                                // ... through realloc: one report, NULL, nothing changes
+                what = sfmt("stale-free(%p) via realloc", (void*)p);
+                char* q = det->reallocMemory(g_allocs[r.below(3)], p, r.below(64), "stale.c", 8, r.flag()); expect_calls = 1; verif::cls("stale-realloc");
+                V_CHECK(q == NULLPTR, "C04:stale-realloc-not-null", "%s returned a block", what.c_str());
+            }
             else { what = sfmt("stale-free(%p)", (void*)p); det->deallocMemory(g_allocs[r.below(3)], p, "stale.c", 7, r.flag()); expect_calls = 1; verif::cls("stale-free"); }
         } else {                                                       // ---- report(period)
             Period p = (Period)r.below(4); what = sfmt("report(%s)", PNAME[p]);
